@@ -12,10 +12,10 @@ CLAIMS = {
          "5 C01"),
  "C02": ("E1 on Gillespie_SIS + E3 on fast_SIS / Gillespie_SIS", "deterministic simulation: scripted-seam re-execution + seeded law sampling",
          "As C01 for the SIS chain: walks of up to 25 events so that nodes are reinfected by the same and by other neighbours; full 2^N status vector law at T<tmax.", "5 C02"),
- "C03": ("E1 walks over a seeded space of model specifications", "deterministic simulation: scripted-seam re-execution against a reference interpreter",
-         "Exact clock and jump law of Gillespie_simple_contagion for random and named specifications (plain / weight_label / rate_function transitions, directed and undirected networks) at every visited state, event effect, and count tracking for random return_statuses subsets.", "5 C03"),
- "C04": ("E2 well-formedness oracle over seeded + buggified runs of all twelve simulators", "deterministic simulation with fault injection (extreme draws, tie-producing timer grid, horizon cuts, degenerate configurations)",
-         "Every structural clause of C04 on every arrays-mode output of ~6000 (quick) seeded runs per invocation with injected extreme draws, exact ties, horizons at/below tmin and zero rates; termination with I=0 for unbounded SIR runs.", "5 C04"),
+ "C03": ("E1 walks over a seeded space of model specifications + E3 seeded law test against the specification's own generator", "deterministic simulation: scripted-seam re-execution against a reference interpreter + seeded law sampling",
+         "Exact clock and jump law of Gillespie_simple_contagion for random and named specifications (plain / weight_label / rate_function transitions, directed and undirected networks) at every visited state, event effect, and count tracking for random return_statuses subsets; implementation-agnostic back-up: status-vector law at two times against expm(Q T) built by the reference interpreter (exact binomial tails).", "5 C03, 12"),
+ "C04": ("E2 well-formedness oracle over seeded + buggified runs of all twelve simulators + horizon-cut prefix consistency", "deterministic simulation with fault injection (extreme draws, tie-producing timer grid, horizon cuts as crash points, degenerate configurations)",
+         "Every structural clause of C04 on every arrays-mode output of ~48000 (quick) seeded runs per invocation with injected extreme draws, exact ties, horizons at/below tmin and zero rates; termination with I=0 for unbounded SIR runs; for the continuous-time simulators the same seeded schedule cut at / one ulp around an event must give exactly the t<tmax prefix.", "5 C04"),
  "C05": ("E2 initial-condition sweep + differential runs under identical draws", "deterministic simulation: seeded runs with argument-shape faults (F7) and same-draw differential execution",
          "Row 0 and get_statuses(tmin) equal the request for ten simulators and wrappers under eight ways of passing the initial set; initially recovered nodes never change; rho+initial_infecteds rejected for every label/value.", "5 C05"),
  "C09": ("E2 causality oracle on full-data histories", "deterministic simulation with fault injection (ties from buggified draws and dyadic tables)",
@@ -28,10 +28,10 @@ CLAIMS = {
          "discrete_SIR equals BFS/stepwise reference under table rules; exact next-generation law of basic_discrete_SIR/SIS, exact trajectory law of percolation_based_discrete_SIR, exact edge law of percolate_network on small graphs.", "5 C12"),
  "C13": ("E2 refinement against the naive SIS reference + E3 law with exponential rules", "deterministic simulation: keyed k-th-infection tables, horizon cuts",
          "fast_nonMarkov_SIS histories, transmissions and arrays equal the plain timestamped-attempt semantics incl. reinfections and chained attempts; exponential rules reproduce the SIS master equation.", "5 C13"),
- "C14": ("F6 relabel/reorder differential runs of the table-driven simulators", "deterministic simulation: schedule perturbation (labels, insertion order) with transported tables",
-         "Simulator half only: per-node histories are invariant under relabelling (other label type), node/edge/initial-set order permutations. The ODE half is a pure function and is not decided by this technique.", "5 C14"),
- "C15": ("E1 walks with user models and callback spies", "deterministic simulation: scripted-seam re-execution with recording user callbacks",
-         "Exact clock and jump law of Gillespie_complex_contagion against rates recomputed from scratch on current statuses; stop condition incl. tmax=inf; callbacks see current statuses, caller's G and parameters.", "5 C15"),
+ "C14": ("F6 relabel/reorder differential runs of the table-driven simulators, the percolation builders and (differential only) the graph-taking ODE entry points", "deterministic simulation: schedule perturbation (labels, insertion order, edge orientation) with transported tables",
+         "Simulator half: per-node histories are invariant under relabelling (other label type), node/edge/initial-set order permutations. ODE half: only as a differential run of every graph-taking entry point under the same perturbation (population curves agree to 1e-5(N+1), integrator failures skipped) - the ODE mathematics itself is a pure function and is not decided by this technique.", "5 C14, 12.2"),
+ "C15": ("E1 walks with user models and callback spies + E3 seeded law test", "deterministic simulation: scripted-seam re-execution with recording user callbacks + seeded law sampling",
+         "Exact clock and jump law of Gillespie_complex_contagion against rates recomputed from scratch on current statuses; stop condition incl. tmax=inf; callbacks see current statuses, caller's G and parameters; influence sets returned as list / iterator / generator / set; back-up law test against expm(Q T) of the user model's generator.", "5 C15, 12"),
  "C16": ("E4 candidate-set operation machine + weighted E1 walks with heaviest-candidate churn", "deterministic simulation: seeded operation histories with exact selection-law extraction",
          "After every operation of seeded insert/replace/update/remove/random_removal histories the selection law is weight/sum exactly and the total is the sum; behaviourally on all four weighted Gillespie simulators.", "5 C16"),
  "C17": ("oracle chain with own SCC/BFS + E1 on bond percolation", "deterministic simulation: scripted-seam enumeration (bond percolation) and keyed user rules",
